@@ -8,6 +8,17 @@ CLS = 'TorControlProtocol'
 WRITE_CALLS = ('self.transport.write', 'self.transport.writeSequence', 'self.sendLine')
 
 
+def _resolve_name(defs, node, depth=0):
+    """follow single plain definitions of local names."""
+    while isinstance(node, ast.Name) and depth < 6:
+        d = single_def(defs, node.id)
+        if d is None or d[0] != 'expr':
+            break
+        node = d[1]
+        depth += 1
+    return node
+
+
 def proto(run):
     return run.idx.cls(CLS, MOD)
 
@@ -23,11 +34,18 @@ def queue_layout(run):
     """(index of Deferred, index of command bytes, index of per-line callback) in the
     tuple queue_command appends to self.commands, and the append call."""
     qc = U(run, 'queue_command')
-    apps = [c for c in calls_in(qc) if dotted(c.func) == 'self.commands.append']
-    if len(apps) != 1 or len(apps[0].args) != 1 or not isinstance(apps[0].args[0], ast.Tuple):
-        raise Undecided('queue_command: expected exactly one self.commands.append(<tuple>)')
-    tup = apps[0].args[0]
     defs = local_defs(qc)
+    apps = []
+    for c in calls_in(qc):
+        d = dotted(c.func) or ''
+        if d.startswith('self.commands.') and c.args:
+            t = _resolve_name(defs, c.args[-1])
+            if isinstance(t, ast.Tuple):
+                apps.append((c, t))
+    if len(apps) != 1:
+        raise Undecided('queue_command: expected exactly one insertion of a tuple into self.commands')
+    tup = apps[0][1]
+    apps = [apps[0][0]]
     params = qc.params
     idx_d = idx_cmd = idx_cb = None
     for i, e in enumerate(tup.elts):
@@ -410,6 +428,10 @@ def r01_5(run, rid='R01.5', classes=('2xx', '5xx', 'other', 'none')):
             if not normal:
                 ob('a raising path has not fired the Deferred', fire not in tags, 'raise-unfired',
                    'raises after firing the command Deferred')
+                nodefer = any(b for _, b in p.took(lambda t: isinstance(t, ast.Compare) and dotted(t.left) == 'self.defer'
+                                                   and isinstance(t.ops[0], ast.Is) and is_none(t.comparators[0])))
+                ob('a %s reply is refused only when no command is in flight' % cls, nodefer, 'unresolved',
+                   '%s reply is not resolved: the path raises instead of firing the command' % cls)
                 continue
             ob('exactly one %s' % fire, tags.count(fire) == 1, 'fire-once', '%s reply fires %d times' % (cls, tags.count(fire)))
             if tags.count(fire) != 1:
@@ -556,4 +578,37 @@ RULES = [
     ('R01.5', 'path enumeration over status-code ordering classes in _broadcast_response: one fire of the right kind, slot cleared, then next issue', r01_5),
     ('R01.7', 'framing: LineOnlyReceiver base, no dataReceived/delimiter override, MAX_LENGTH >= 2**20, each line processed once', r01_7),
     ('R01.8', 'each reply line goes to exactly one of per-line callback / reply text; prefix slice is 4; data lines unsliced', r01_8),
+]
+
+from ..selftest import M  # noqa: E402
+F = 'txtorcon/torcontrolprotocol.py'
+MUTANTS = [
+    M('write-in-queue_command', F, "        self.commands.append((d, cmd, arg))\n", "        self.commands.append((d, cmd, arg))\n        self.transport.write(cmd)\n", ['R01.1']),
+    M('lf-terminator', F, "data = cmd + b'\\r\\n'", "data = cmd + b'\\n'", ['R01.2']),
+    M('write-stripped', F, "data = cmd + b'\\r\\n'", "data = cmd.strip() + b'\\r\\n'", ['R01.2']),
+    M('queue-lowercases', F, "        d = defer.Deferred()\n        self.commands.append", "        cmd = cmd.upper()\n        d = defer.Deferred()\n        self.commands.append", ['R01.2']),
+    M('pop-tail', F, "self.commands.pop(0)", "self.commands.pop()", ['R01.3']),
+    M('insert-head', F, "self.commands.append((d, cmd, arg))", "self.commands.insert(0, (d, cmd, arg))", ['R01.3']),
+    M('no-issue-after-append', F, "        self.commands.append((d, cmd, arg))\n        self._maybe_issue_command()\n", "        self.commands.append((d, cmd, arg))\n        if arg is None:\n            self._maybe_issue_command()\n", ['R01.3']),
+    M('return-other-deferred', F, "        self._maybe_issue_command()\n        return d\n", "        self._maybe_issue_command()\n        return defer.Deferred()\n", ['R01.3']),
+    M('no-inflight-guard', F, "        if self.command:\n            return\n\n        if len(self.commands):", "        if len(self.commands):", ['R01.4']),
+    M('defer-not-set', F, "            self.defer = d\n\n            self.debuglog", "            self.debuglog", ['R01.4']),
+    M('defer-wrong-elem', F, "            self.defer = d\n", "            self.defer = cmd_arg\n", ['R01.4']),
+    M('no-defer-reset', F, "        self.code = None\n        self.defer = None\n        self._maybe_issue_command()", "        self.code = None\n        self._maybe_issue_command()", ['R01.5']),
+    M('issue-before-reset', F, "        self.command = None\n        self.code = None\n        self.defer = None\n        self._maybe_issue_command()", "        self._maybe_issue_command()\n        self.command = None\n        self.code = None\n        self.defer = None", ['R01.5']),
+    M('5xx-callback', F, "            self.defer.errback(err)", "            self.defer.callback(err)", ['R01.5']),
+    M('no-response-reset', F, "            resp = self.response\n        self.response = ''\n", "            resp = self.response\n", ['R01.5']),
+    M('5xx-range-narrow', F, "elif self.code >= 500 and self.code < 600:", "elif self.code > 500 and self.code < 600:", ['R01.5']),
+    M('2xx-includes-300', F, "        elif self.code >= 200 and self.code < 300:\n            if self.defer is None", "        elif self.code >= 200 and self.code <= 300:\n            if self.defer is None", ['R01.5']),
+    M('max-length-small', F, "MAX_LENGTH = 2 ** 20", "MAX_LENGTH = 2 ** 16", ['R01.7']),
+    M('slice-3', F, "            self.response += (line[4:] + '\\n')", "            self.response += (line[3:] + '\\n')", ['R01.8']),
+    M('data-line-sliced', F, "            self.response += (line + '\\n')", "            self.response += (line[1:] + '\\n')", ['R01.8']),
+    M('both-cb-and-acc', F, "            self.command[2](line)\n\n        else:\n            self.response += (line + '\\n')", "            self.command[2](line)\n        self.response += (line + '\\n')", ['R01.8']),
+]
+TWINS = [
+    M('join-payload', F, "data = cmd + b'\\r\\n'", "data = b''.join([cmd, b'\\r\\n'])"),
+    M('append-bound-first', F, "        self.commands.append((d, cmd, arg))", "        entry = (d, cmd, arg)\n        self.commands.append(entry)"),
+    M('guard-is-not-none', F, "        if self.command:\n            return\n", "        if self.command is not None:\n            return\n"),
+    M('reorder-resets', F, "        self.command = None\n        self.code = None\n        self.defer = None\n        self._maybe_issue_command()", "        self.code = None\n        self.defer = None\n        self.command = None\n        self._maybe_issue_command()"),
+    M('chained-compare', F, "elif self.code >= 500 and self.code < 600:", "elif 500 <= self.code < 600:"),
 ]
